@@ -595,6 +595,10 @@ class Executor:
             # symbolic index into a literal list: ite chain
             i = self.as_int(st, idx)
             n = len(base.items)
+            if n == 0:
+                # every index into an empty literal list is out of range
+                self.fail(st, z3.BoolVal(True), 'IndexError')
+                return Val(C.TAny, z3.Const(C.fresh_name('any'), C.AnySort))
             self.fail(st, z3.Or(i >= n, i < -n), 'IndexError')
             return self.ite_chain([(z3.Or(i == k, i == k - n), it)
                                    for k, it in enumerate(base.items)])
@@ -990,6 +994,10 @@ class Executor:
         if isinstance(op, ast.Is):
             if b.ty == TNone or a.ty == TNone: return eq(a, b)
             if a.ty == TBool and b.ty == TBool: return a.term == b.term
+            for x, y in ((a, b), (b, a)):
+                if isinstance(x.ty, TOpt) and x.ty.elem == TBool and y.ty == TBool:
+                    # an optional bool `is True / False`: present and that value
+                    return z3.And(x.ty.is_some(x.term), x.ty.val(x.term) == y.term)
             if b.ty == TBool or a.ty == TBool:
                 # `x is True` with x not a bool
                 return z3.BoolVal(False)
